@@ -11,6 +11,12 @@ import Ptn.C08.Model
                                        `s1=…;s2=…;contr=…;abs=…;bind=…;n1=…;n2=…` (see `showResult`);
                                        `error` when the model raises
   seq <id:parent:kids> … / <a-b> …  → the tree after two-site gates on the pairs, same encoding
+  steprec <id:parent:kids> … / <op> …→ operators `a` (one site) or `a-b` (two sites), gates numbered from 0:
+                                       `<g>:<k>:<leg> … | <tree>` the global binding record of `runOps`
+                                       (leg `s<site>` = initial physical leg, `o<g>.<k>` = output k of gate g)
+                                       and the final tree; `error` when the model raises
+  expsites <keys>/<before>/<after> … → site lists of `exponentSites`; keys `a` or `a,b`; swaps `n` (None),
+                                       `s:<a-b,…>` (SWAPlist) or `p:<a-b,…>` (plain list)
 -/
 namespace Ptn.C08
 
@@ -76,6 +82,33 @@ def parsePair (tok : String) : Option (Nat × Nat) :=
 
 def showTNode (n : TNode) : String := s!"{n.id}:{showOpt n.parent}:{showNats n.children}"
 
+def parseOp (tok : String) : Option (List Nat) :=
+  (tok.splitOn "-").mapM String.toNat?
+
+def showGLeg : GLeg → String
+  | .init s => s!"s{s}"
+  | .out g k => s!"o{g}.{k}"
+
+def parsePairs (s : String) : Option (List (Nat × Nat)) :=
+  if s = "" then some [] else (s.splitOn ",").mapM parsePair
+
+def parseSwapArg (s : String) : Option SwapArg :=
+  if s = "n" then some .none
+  else if s.startsWith "s:" then (parsePairs (s.drop 2).toString).map .swaplist
+  else if s.startsWith "p:" then (parsePairs (s.drop 2).toString).map .plain
+  else none
+
+def parseSiteStep (tok : String) : Option SiteStep :=
+  match tok.splitOn "/" with
+  | [k, b, a] =>
+    match (k.splitOn ",").mapM String.toNat?, parseSwapArg b, parseSwapArg a with
+    | some k, some b, some a => some ⟨k, b, a⟩
+    | _, _, _ => none
+  | _ => none
+
+def showSites (l : List Nat) : String :=
+  if l.isEmpty then "_" else "-".intercalate (l.map toString)
+
 def handle (args : List String) : String :=
   match args with
   | "splitting" :: toks =>
@@ -110,6 +143,22 @@ def handle (args : List String) : String :=
       | some t' => " ".intercalate (t'.map showTNode)
       | none => "error"
     | _, _ => "bad-op"
+  | "steprec" :: rest =>
+    let treeToks := rest.takeWhile (· ≠ "/")
+    let opToks := (rest.dropWhile (· ≠ "/")).drop 1
+    if ¬ rest.contains "/" then "bad-op" else
+    match treeToks.mapM parseTNode, opToks.mapM parseOp with
+    | some t, some ops =>
+      match runOps ⟨t, GLeg.init, []⟩ 0 ops with
+      | some st =>
+        " ".intercalate (st.record.map fun (l, g, k) => s!"{g}:{k}:{showGLeg l}") ++ " | " ++
+          " ".intercalate (st.tree.map showTNode)
+      | none => "error"
+    | _, _ => "bad-op"
+  | "expsites" :: toks =>
+    match toks.mapM parseSiteStep with
+    | some steps => " ".intercalate ((exponentSites steps).map showSites)
+    | none => "bad-op"
   | _ => "bad-op"
 
 end Ptn.C08
